@@ -59,8 +59,8 @@ MODEL = dict(
     ],
     # runs of >= 50 calls (thorough) include, in every eighth driver process, the fill to 10 000 tokens / 5 000 documents
     quick=dict(sample=2500, drive_runs=180, drive_len=40),
-    thorough=dict(sample=30000, drive_runs=1440, drive_len=60, harness_timeout=6000),
-    selftest_drive=(20, 30),
+    thorough=dict(sample=30000, drive_runs=720, drive_len=60, harness_timeout=6000),
+    selftest_drive=(30, 30),   # two driver cycles: every kind of run occurs at run >= 3
     need=[("allow", "ok"), ("allow", "fail"), ("remove", "ok"), ("remove", "fail"),
           ("add_topic", "ok"), ("add_topic", "fail"), ("remove_topic", "ok"), ("remove_topic", "fail"),
           ("add_issuer", "ok"), ("add_issuer", "fail"), ("remove_issuer", "ok"), ("remove_issuer", "fail"),
